@@ -24,3 +24,31 @@ def strassen_groups(props):
                         replace=["mzd_init", "_mzd_mul_even", "_mzd_sqr_even", "_mzd_addmul_even", "_mzd_addsqr_even"], object_bits=12, bounded=False,
                         bound_note="(all dimensions and the cutoff symbolic; default cutoff arbitrary via the libm stub)", timeout=900, mem_gb=16, slots=2))
     return gs
+
+
+def tri_groups(props):
+    """triangular.c: the four block-recursive TRSM routines, the inversion-based variant and the recursive triangular inversion"""
+    gs = []
+    win = ["mzd_init_window", "mzd_free"]
+    spec = {
+        "UR": ("_mzd_trsm_upper_right", win + ["_mzd_trsm_upper_right_base", "_mzd_trsm_upper_right_trtri", "mzd_addmul"], False),
+        "LR": ("_mzd_trsm_lower_right", win + ["_mzd_trsm_lower_right_base", "mzd_addmul"], False),
+        "LL": ("_mzd_trsm_lower_left", win + ["_mzd_trsm_lower_left_russian", "mzd_addmul"], False),
+        "UL": ("_mzd_trsm_upper_left", win + ["_mzd_trsm_upper_left_russian", "_mzd_addmul"], False),
+        "TRTRI": ("mzd_trtri_upper", win + ["mzd_trtri_upper_russian", "_mzd_trsm_upper_left", "_mzd_trsm_upper_right"], False),
+        "UR_TRTRI": ("_mzd_trsm_upper_right_trtri", ["mzd_extract_u", "mzd_trtri_upper", "mzd_mul", "mzd_copy", "mzd_free"], True),
+    }
+    fam = ["mzd_trsm_upper_right", "mzd_trsm_lower_right", "mzd_trsm_lower_left", "mzd_trsm_upper_left", "_mzd_trsm_upper_right", "_mzd_trsm_lower_right", "_mzd_trsm_lower_left",
+           "_mzd_trsm_upper_left", "mzd_trtri_upper", "_mzd_trsm_upper_right_trtri", "_mzd_trsm_upper_right_base", "_mzd_trsm_lower_right_base", "_mzd_trsm_pack", "_mzd_trsm_unpack"]
+    for name, (fn, repl, ghost) in spec.items():
+        d = {"H_" + name: None}
+        if ghost:
+            d["VP_TRI_GHOST"] = None
+        rec = fn != "_mzd_trsm_upper_right_trtri"
+        gs.append(Group(gid="S." + fn, props=list(props), harness="s_tri.c", function=fn, layer="S", defines=d, tus=["misc", "/verif/stubs/libm_any.c"], native_tus=[],
+                        enforce_rec=[fn] if rec else [], enforce=[] if rec else [fn], replace=repl, remove_bodies=[f for f in fam if f != fn and f not in repl],
+                        unwindset=({"%s%s.%d" % (fn, sfx, n): 1 for sfx in ("", "_wrapped_for_contract_checking") for n in range(3)} if name in ("LL", "UL") else {}),
+                        object_bits=12, bounded=False,
+                        bound_note="(all dimensions and the cutoff symbolic; the data loops of the order <= 64 base case are outside the assumed regime and decided in layer B)",
+                        timeout=900, mem_gb=16, slots=2))
+    return gs
